@@ -66,6 +66,7 @@ const (
 )
 
 type sengine struct {
+	ctx        *Ctx // when set, package-level tables that are never written are read as constants
 	pkg        *ssa.Package
 	load       func(p *spath, fr *sframe, addr iv, in *ssa.UnOp) (iv, bool)
 	call       func(p *spath, fr *sframe, call *ssa.Call, callee *ssa.Function, args []iv) (iv, callAction)
@@ -362,6 +363,19 @@ func (e *sengine) step(p *spath, fr *sframe, in ssa.Instruction) {
 			if e.load != nil {
 				if r, ok := e.load(p, fr, a, x); ok {
 					fr.vals[x] = r
+					return
+				}
+			}
+			// a field of a package-level struct table that is never written
+			if e.ctx != nil {
+				if fa, ok := x.X.(*ssa.FieldAddr); ok {
+					if g, ok := fa.X.(*ssa.Global); ok {
+						if ct := e.ctx.constTableOf(g.Object()); ct != nil && !ct.isMap {
+							if v, ok := ct.fields[fieldNameOf(deref(g.Type()), fa.Field)]; ok {
+								fr.vals[x] = ivInt(v)
+							}
+						}
+					}
 				}
 			}
 		case token.NOT:
@@ -419,6 +433,24 @@ func (e *sengine) step(p *spath, fr *sframe, in ssa.Instruction) {
 		if e.lookup != nil {
 			if r, ok := e.lookup(p, fr, x, e.val(fr, x.X), e.val(fr, x.Index)); ok {
 				fr.vals[x] = r
+				return
+			}
+		}
+		// a package-level table that is never written: its entries are constants of the program
+		if e.ctx != nil {
+			if ld, ok := x.X.(*ssa.UnOp); ok && ld.Op == token.MUL {
+				if g, ok := ld.X.(*ssa.Global); ok {
+					if ct := e.ctx.constTableOf(g.Object()); ct != nil && ct.isMap && len(ct.strs) == 0 {
+						if k := e.val(fr, x.Index); k.k == 'i' {
+							v, found := ct.ints[k.i]
+							if x.CommaOk {
+								fr.vals[x] = ivTuple(ivInt(v), ivBool(found))
+							} else {
+								fr.vals[x] = ivInt(v)
+							}
+						}
+					}
+				}
 			}
 		}
 	case *ssa.TypeAssert:
